@@ -258,7 +258,9 @@ def run(ctx):
                 if used("ret", j):
                     ins.append(("ret", data))
                     ms.append(("ret", cterm, next(e_ret) + "|" + lenient, data))
-                if used("ctor", j):
+                # constructor arguments live at an unmodelled base inside the init code: a word >= 2^255 used as an
+                # offset wraps into init-code bytes there (into zeros in the base-0 model), so such inputs are skipped
+                if used("ctor", j) and not any(data[i] >= 0x80 for i in range(0, len(data), 32)):
                     ins.append(("ctor", data))
                     ms.append(("ctor", cterm, lenient, data))
             inputs.append(ins)
